@@ -89,8 +89,10 @@ class SymStr(Pieces, str):
     def __new__(cls, pieces):
         return str.__new__(cls, '\x00SYMSTR\x00')
 
-    def __init__(self, pieces):
-        self.pieces = self._norm(pieces)
+    def __init__(self, pieces, *a, **k):
+        if pieces is self:            # str(symstr): type.__call__ re-runs __init__ on the object __str__ returned
+            return
+        self.pieces = pieces.pieces if isinstance(pieces, Pieces) else self._norm(pieces)
 
     def __str__(self):
         return self
@@ -106,6 +108,46 @@ class SymStr(Pieces, str):
 
     def __radd__(self, o):
         return SymStr([o] + list(self.pieces))
+
+    # str methods dir_archive._fname and friends use; atoms are self-delimiting tokens different from every literal text
+    def replace(self, old, new, *count):
+        if isinstance(old, Pieces) or isinstance(new, Pieces) or count:
+            raise TypeError('replace with symbolic arguments is not modelled')
+        return SymStr([p.replace(old, new) if isinstance(p, str) else p for p in self.pieces])
+
+    def startswith(self, prefix, *a):
+        if a or isinstance(prefix, Pieces):
+            raise TypeError('startswith with symbolic arguments is not modelled')
+        if isinstance(prefix, tuple):
+            return any(self.startswith(p) for p in prefix)
+        if not isinstance(prefix, str):
+            raise TypeError('startswith first arg must be str or a tuple of str, not %s' % type(prefix).__name__)
+        if prefix == '':
+            return True
+        first = self.pieces[0] if self.pieces else ''
+        return isinstance(first, str) and (first.startswith(prefix) if len(first) >= len(prefix) else False)
+
+    def endswith(self, suffix, *a):
+        if a or isinstance(suffix, Pieces):
+            raise TypeError('endswith with symbolic arguments is not modelled')
+        if isinstance(suffix, tuple):
+            return any(self.endswith(p) for p in suffix)
+        if not isinstance(suffix, str):
+            raise TypeError('endswith first arg must be str or a tuple of str, not %s' % type(suffix).__name__)
+        if suffix == '':
+            return True
+        last = self.pieces[-1] if self.pieces else ''
+        return isinstance(last, str) and (last.endswith(suffix) if len(last) >= len(suffix) else False)
+
+    def __contains__(self, sub):
+        if isinstance(sub, Pieces):
+            raise TypeError('containment of symbolic strings is not modelled')
+        return any(isinstance(p, str) and sub in p for p in self.pieces)
+
+    def count(self, sub, *a):
+        if a or isinstance(sub, Pieces):
+            raise TypeError('count with symbolic arguments is not modelled')
+        return sum(p.count(sub) for p in self.pieces if isinstance(p, str))
 
     def __lt__(self, o):
         raise TypeError('ordering of symbolic strings is not modelled')
@@ -123,8 +165,13 @@ class SymBytes(Pieces, bytes):
     def __new__(cls, pieces):
         return bytes.__new__(cls, b'\x00SYMBYTES\x00')
 
-    def __init__(self, pieces):
-        self.pieces = self._norm(pieces)
+    def __init__(self, pieces, *a, **k):
+        if pieces is self:
+            return
+        self.pieces = pieces.pieces if isinstance(pieces, Pieces) else self._norm(pieces)
+
+    def __bytes__(self):
+        return self
 
     def __repr__(self):
         return SymStr(["b'"] + list(self.pieces) + ["'"])
@@ -143,18 +190,24 @@ def _restore(i):
     return type(o)(o.pieces)
 
 
-class HWrap:
-    """python's hash(key) modulo collisions: an injective image of the key"""
-    __slots__ = ('key',)
+SESSION = [0]      # C17: which interpreter session is being simulated (python's hash() of the same object differs between sessions)
 
-    def __init__(self, key):
+
+class HWrap:
+    """python's hash(key) modulo collisions: an injective image of the key (and of the session: hash randomisation)"""
+    __slots__ = ('key', 'session')
+
+    def __init__(self, key, session=None):
         self.key = key
+        self.session = SESSION[0] if session is None else session
 
     def __hash__(self):
         return 0
 
     def __eq__(self, o):
         if not isinstance(o, HWrap):
+            return False
+        if self.session != o.session:
             return False
         return self.key == o.key
 
@@ -166,7 +219,10 @@ class HWrap:
         return 'H(%r)' % (self.key,)
 
     def __reduce__(self):
-        return (HWrap, (self.key,))
+        return (HWrap, (self.key, self.session))
+
+    def __str__(self):
+        return SymStr(['<pyhash s%d of ' % self.session] + pieces_repr(self.key) + ['>'])
 
 
 def has_sym(o, depth=0):
@@ -192,7 +248,7 @@ def pieces_repr(o):
     if isinstance(o, SymBytes):
         return ["b'"] + list(o.pieces) + ["'"]
     if isinstance(o, HWrap):
-        return [('wrap', 'pyhash', SymStr(pieces_repr(o.key)))]
+        return [('wrap', 'pyhash%s' % (o.session or ''), SymStr(pieces_repr(o.key)))]
     if isinstance(o, tuple) and hasattr(o, '_fields'):
         out = [type(o).__name__ + '(']
         for i, (n, x) in enumerate(zip(o._fields, o)):
@@ -239,6 +295,8 @@ class sym_str(metaclass=_StrMeta):
     def __new__(cls, o=''):
         if isinstance(o, SymStr):
             return o
+        if isinstance(o, HWrap):
+            return o.__str__()
         return SymStr(pieces_repr(o)) if has_sym(o) else builtins.str(o)
 
 
@@ -280,7 +338,7 @@ def sym_import(name, *a, **k):
 
 
 def sym_pyhash(o):
-    if has_sym(o):
+    if has_sym(o) or SESSION[0]:
         return HWrap(o)
     return builtins.hash(o)
 
